@@ -10,7 +10,7 @@ def check(tier, seed):
     t = 60000 if tier == "thorough" else 20000
     sub = [("contracts.bd_guards", "unit_check_biorthonormality", {"nsub": n, "timeout_ms": t}) for n in (1, 3)] + [("contracts.bd_guards", "unit_normalize_subspaces", {"timeout_ms": t})]
     d.add_units(fold_canaries(run_units(specs_keys(tier) + specs_projection(tier) + specs_blocks(tier) + specs_solver(tier) + specs_masks(tier) + sub + specs_linalg_misc(tier))))
-    d.add_lean(NAT_LEAN + NAT_LEAN_NH)
+    d.add_lean(NAT_LEAN + NAT_LEAN_NH + ["PV.Laws.coeff_hom_law", "PV.Laws.unitary_law", "PV.Laws.perm_law"])
     d.assumptions += [NAT_NOTE,
                       INSTANCE_NOTE + "a change of (bi)orthonormal eigenbasis is conjugation A -> L^dagger A R with L^dagger R = 1, a ring homomorphism of the block algebra "
                       "that commutes with adjoint (unitary case) and with the kept/eliminated split defined in the eigenbasis",
